@@ -14,7 +14,10 @@ import (
 )
 
 func (k Keeper) BurnValidator(ctx sdk.Ctx, address sdk.Address, severityPercentage sdk.Dec) {
-	curBurn, _ := k.getValidatorBurn(ctx, address)
+	curBurn, found := k.getValidatorBurn(ctx, address)
+	if !found {
+		curBurn = sdk.ZeroDec()
+	}
 	newSeverity := curBurn.Add(severityPercentage)
 	k.setValidatorBurn(ctx, newSeverity, address)
 }
